@@ -18,13 +18,13 @@ def sh(cmd, cwd=None, timeout=1800):
     return p.returncode, p.stdout
 
 
-def ingest(prop, ks, root="/tmp/mut"):
+def ingest(prop, ks, root="/tmp/mut", tag=""):
     wt = os.path.join(root, prop)
     for k in ks:
         src = os.path.join(wt, "_out", str(k))
         if not os.path.exists(os.path.join(src, "patch.diff")):
             print(prop, k, "missing patch"); continue
-        sid = "%s-%s" % (prop, k)
+        sid = "%s-%s%s" % (prop, tag, k)
         sh("git checkout -- . && git clean -fdq mpilot", cwd=wt)
         rc0, out0 = sh([PY, "_out/%s/demo.py" % k], cwd=wt)
         rca, outa = sh(["git", "apply", "_out/%s/patch.diff" % k], cwd=wt)
@@ -84,7 +84,8 @@ def table():
     print("|---|---|---|---|")
     for sid in sorted(os.listdir(SEEDED)):
         m = json.load(open(os.path.join(SEEDED, sid, "meta.json")))
-        first = m["needs_to_manifest"].split("\n")[0][:140]
+        lines = [l.strip(" -*#") for l in m["needs_to_manifest"].split("\n") if l.strip(" -*#") and not l.startswith("#")]
+        first = (lines[0] if lines else "")[:160]
         print("| %s | %s | %s | %s |" % (sid, m["property"], first.replace("|", "/"), ", ".join(m.get("detected_by", [])) or "MISSED"))
 
 
@@ -92,6 +93,8 @@ if __name__ == "__main__":
     cmd = sys.argv[1]
     if cmd == "ingest":
         ingest(sys.argv[2], sys.argv[3:] or ["1", "2", "3"])
+    elif cmd == "ingest2":
+        ingest(sys.argv[2], sys.argv[3:] or ["1", "2", "3"], root="/tmp/mut2", tag="r2.")
     elif cmd == "eval":
         a = [x for x in sys.argv[2:] if x != "--all"]
         evaluate(a, "--all" in sys.argv)
